@@ -781,20 +781,34 @@ func ruleProjection(w *World, r *Report, fn string, forward bool) {
 		r.add("PASSTHRU", fn+" / loop", pos, Undecided, "no loop over the input list")
 		return
 	}
-	// the transform: dynamic call whose function value is the result of wgs84.SafeTransform(a, b)
+	// the transform: dynamic call whose function value is the result of wgs84.SafeTransform(a, b),
+	// created in place or by a private helper whose parameters are the two CRS codes
 	var tcall *ssa.Call
 	var maker *ssa.Call
+	var helperCall *ssa.Call // call of the private helper in f (nil when the maker is in f)
 	instrs(f, func(in ssa.Instruction) {
 		c, ok := in.(*ssa.Call)
 		if !ok || c.Common().StaticCallee() != nil || builtinName(c) != "" || c.Common().IsInvoke() {
 			return
 		}
-		if mk, ok := resolve(c.Common().Value).(*ssa.Call); ok && calleeOf(mk) != nil && pkgOf(calleeOf(mk)) != nil && pkgOf(calleeOf(mk)).Path() == "github.com/wroge/wgs84" {
+		mk, ok := resolve(c.Common().Value).(*ssa.Call)
+		if !ok || calleeOf(mk) == nil || pkgOf(calleeOf(mk)) == nil {
+			return
+		}
+		if pkgOf(calleeOf(mk)).Path() == "github.com/wroge/wgs84" {
 			tcall, maker = c, mk
+			return
+		}
+		if h := calleeOf(mk); w.InModule(h) && h.Blocks != nil {
+			for _, ret := range returnsOf(h) {
+				if inner, ok := resolve(ret.Results[0]).(*ssa.Call); ok && calleeOf(inner) != nil && pkgOf(calleeOf(inner)) != nil && pkgOf(calleeOf(inner)).Path() == "github.com/wroge/wgs84" {
+					tcall, maker, helperCall = c, inner, mk
+				}
+			}
 		}
 	})
 	if tcall == nil {
-		r.add("CRS-ARGS", fn+" / transform", pos, Undecided, "no call of a wgs84 transform found")
+		r.add("CRS-ARGS", fn+" / transform", pos, Info, "no call of a wgs84 transform could be located in this function (no verdict)")
 		return
 	}
 	if calleeOf(maker).Name() != "SafeTransform" {
@@ -814,10 +828,17 @@ func ruleProjection(w *World, r *Report, fn string, forward bool) {
 		if !ok || calleeOf(c) == nil || calleeOf(c).Name() != "Code" || len(c.Call.Args) != 2 {
 			return false, false
 		}
-		if k, ok := constInt(c.Call.Args[1]); ok && k == geo && geo != 0 {
+		arg := resolve(c.Call.Args[1])
+		if helperCall != nil {
+			// the code is a parameter of the helper: map it to the helper call's argument in f
+			if pi := paramIndex(calleeOf(helperCall), arg); pi >= 0 && pi < len(helperCall.Call.Args) {
+				arg = resolve(helperCall.Call.Args[pi])
+			}
+		}
+		if k, ok := constInt(arg); ok && k == geo && geo != 0 {
 			return true, false
 		}
-		if resolve(c.Call.Args[1]) == ssa.Value(f.Params[1]) {
+		if arg == ssa.Value(f.Params[1]) {
 			return false, true
 		}
 		return false, false
